@@ -126,6 +126,34 @@ func ruleTracking(w *World, r *Report, rule string, wantScopedStore, wantTransie
 		r.Analysed(f)
 		finfo := f.Pkg.TypesInfo // helpers are in the same package
 		fl := w.FlowOf(f)
+		// the answer of instance.(Disposable) is used as given: an assignment that overwrites it
+		// (`ok = false` for some lifetime, some scope) makes a Disposable look like none
+		overwritten := ""
+		ast.Inspect(f.Decl.Body, func(n ast.Node) bool {
+			as, ok := n.(*ast.AssignStmt)
+			if !ok {
+				return true
+			}
+			for i, l := range as.Lhs {
+				if !okVars[objOf(finfo, l)] {
+					continue
+				}
+				isAssert := false
+				if len(as.Rhs) == 1 {
+					if _, isTA := unparen(as.Rhs[0]).(*ast.TypeAssertExpr); isTA {
+						isAssert = true
+					}
+				}
+				_ = i
+				if !isAssert {
+					overwritten = w.Pos(as.Pos())
+				}
+			}
+			return true
+		})
+		r.Check(overwritten == "", rule, owner.Name()+"#disposable-answer-kept", f.Decl.Pos(), false,
+			"the result of the Disposable assertion is never overwritten",
+			"the result of instance.(Disposable) is overwritten at "+overwritten+": an instance that is a Disposable is treated as if it were none on some path and is never closed")
 		isDispEdge := func(b *cfg.Block, i int, cond ast.Expr, in Facts) (gen, kill []string) {
 			if cond != nil && okVars[objOf(finfo, cond)] && i == 0 {
 				gen = append(gen, "is-disposable", "pending")
